@@ -133,7 +133,27 @@ impl Prop for C18Prop {
                 _ => "good",
             }
             .to_string();
-            files.push(FileSpec { name: format!("f{i:03}.{}", *t.pick(&["pas", "dpr", "pas"])), text, enc, kind });
+            // some names differ from another file's only in letter case
+            let name = if i > 0 && t.chance(1, 8) {
+                let prev: &FileSpec = &files[t.below(i) as usize];
+                let flipped: String = prev.name.chars().map(|c| if c.is_ascii_lowercase() { c.to_ascii_uppercase() } else { c.to_ascii_lowercase() }).collect();
+                if files.iter().any(|f: &FileSpec| f.name == flipped) { format!("f{i:03}.pas") } else { flipped }
+            } else {
+                format!("f{i:03}.{}", *t.pick(&["pas", "dpr", "pas"]))
+            };
+            files.push(FileSpec { name, text, enc, kind });
+        }
+        // an even number of failing files now and then (exit status must still be non-zero)
+        if t.chance(1, 4) {
+            let k = 2 * (1 + t.below(2)) as usize;
+            for j in 0..k {
+                files.push(FileSpec { name: format!("bad{j}.pas"), text: "x := 1;\n".into(), enc: "utf8".into(), kind: (*t.pick(&["badutf8", "missing", "badutf16"])).to_string() });
+            }
+            for f in files.iter_mut() {
+                if !f.name.starts_with("bad") {
+                    f.kind = "good".into();
+                }
+            }
         }
         let scn = Scn {
             files,
